@@ -29,6 +29,7 @@ func propC05() *Property {
 			{ID: "C05.R8", Title: "garbage in a response cannot index past the pieces it was split into", Floor: 0, Run: splitIndexing},
 			{ID: "C05.R7", Title: "whatever a fetch may block on is released on every path, the error paths included", Floor: 0, Run: c05R7},
 			{ID: "C05.R11", Title: "a response cut short is refused: what is accepted went through the whole acceptance path, the decoder's verdict included (same instances as C03.R1)", Floor: 15, Run: c03R1},
+			{ID: "C05.R12", Title: "the timeout that bounds dial, handshake and exchange is the validated, positive, scaled setting (same instances as C19.R3)", Floor: 15, Run: c19R3},
 			{ID: "C05.R10", Title: "a flight is never joined from inside itself: nothing run by singleflight.Do reaches a Do on the same group", Floor: 1, Run: c05R10},
 			{ID: "C05.R9", Title: "one exchange per hop: no function of the fetcher dials twice on a path or in a loop", Floor: 1, Run: c05R9},
 		},
